@@ -977,6 +977,28 @@ def _semantic_only(steps: list, step_of_var: list, i: int) -> bool:
     return steps[k]["op"] == "identity" and steps[step_of_var[steps[k]["args"][0]]]["op"] == "inline_mix"
 
 
+def _where_truncated(steps: list, prop, runtime) -> bool:
+    """A difference explained by Where on string tensors of different widths upstream: every propagated string
+    (or split piece / length derived from one) stems from a runtime string cut short. Only claimed when the program
+    has a Where over string operands and the propagated strings are proper prefixes of the runtime ones."""
+    has_where = any(st["op"] == "where" and any(steps[a]["op"] == "const" and steps[a].get("dt") == "str" or steps[a]["op"] == "mlop" or steps[a]["op"] in ("gather", "concat", "identity", "where", "cast")
+                                                  for a in st["args"][1:]) for st in steps)
+    if not has_where:
+        return False
+    try:
+        a, b = np.asarray(prop), np.asarray(runtime)
+        if a.dtype.kind in "UO" and b.dtype.kind in "UO":
+            if a.shape == b.shape:
+                xs, ys = [str(x) for x in a.reshape(-1)], [str(y) for y in b.reshape(-1)]
+                return xs != ys and all(y.startswith(x) for x, y in zip(xs, ys))
+            return a.ndim == b.ndim == 2 and a.shape[0] == b.shape[0] and a.shape[1] < b.shape[1]  # StringSplit of a cut string: fewer pieces
+        if a.dtype.kind == "i" and b.dtype.kind == "i" and a.shape == b.shape:  # StringSplit's piece counts
+            return any(st["op"] == "mlop" and st.get("name") == "StringSplit" for st in steps) and bool(np.all(a <= b)) and bool(np.any(a < b))
+    except Exception:  # noqa: BLE001
+        return False
+    return False
+
+
 def c07_check_program(steps: list, sel: str, seed: int) -> dict:
     """C07 on one program under one backend. Returns {"failures": [(key, what)], "stats": {...}}."""
     import spox
@@ -1078,6 +1100,12 @@ def c07_check_program(steps: list, sel: str, seed: int) -> dict:
                         why = None
                 if why and down_of is not None and legacy_class.get(down_of):
                     why = None  # consequence of the (reported) difference at the inlined model's own output
+                if why and sel == "reference" and _where_truncated(steps, v._get_value(), o):
+                    # onnx.reference's Where returns `np.where(c, x, y).astype(x.dtype)`: with fixed-width numpy strings
+                    # the elements taken from y are cut to x's width (third-party; listed family, never a silent pass)
+                    fails.append(("string:reference-where-truncates",
+                                  f"[{sel}] var {i} ({opn}): propagated {_short(v._get_value(), 60)} but the built model computes {_short(o, 60)}"))
+                    why = None
                 if why == "strings-differ":
                     fam = nul_class(v._get_value(), o)
                     if fam:  # numpy fixed-width strings / the ORT feed drop NULs: its own (listed) family
@@ -1257,6 +1285,9 @@ def off_check_program(steps: list, sel: str, seed: int) -> dict:
         a, b = ort_run(m_on, feed), ort_run(m_off, feed)
     except Exception as e:  # noqa: BLE001
         return {"failures": fails, "infra": f"ort failed {type(e).__name__}: {str(e)[:150]}"}
+    if any(st["op"] == "mlop" and st.get("fn") in ("random_uniform", "random_normal", "random_uniform_like", "random_normal_like", "multinomial", "bernoulli")
+           or st["op"] == "mlop" and st.get("name") == "dropout_train" for st in steps):
+        return {"failures": fails}  # two runs of a sampling program differ by nature: only the emitted graphs are compared
     for i, x, y in zip(idx, a, b):
         why = values_equal(x, y)
         if why:
